@@ -227,7 +227,40 @@ class Evaluator:
             return args[1]
         if name in ("copy.copy", "copy.deepcopy") and isinstance(args[0], Obj):
             return self._copy_obj(args[0], deep=name.endswith("deepcopy"), memo={})
+        if name in ("dataclasses.asdict", "dataclasses.replace") and args and isinstance(args[0], Obj) and args[0]._cls is not None and self.repo is not None:
+            fields = self.dataclass_fields(args[0]._cls)
+            if fields:
+                if name.endswith("asdict"):
+                    return {f: self._copy_val(args[0].get(f), {}) for f in fields}
+                vals = {f: args[0].get(f) for f in fields}
+                for kw in node.keywords:
+                    if kw.arg is None or kw.arg not in fields:
+                        raise NotEvaluable("dataclasses.replace with unknown field")
+                    vals[kw.arg] = self.eval(kw.value)
+                return self.instantiate(args[0]._cls, [], vals)
         raise NotEvaluable(f"external call {name} is outside the index domain")
+
+    def _kwargs(self, n: ast.Call) -> Dict[str, Any]:
+        out: Dict[str, Any] = {}
+        for kw in n.keywords:
+            if kw.arg is None:
+                m = self.eval(kw.value)
+                if not isinstance(m, dict) or not all(isinstance(k, str) for k in m):
+                    raise NotEvaluable(f"** of a non-dict in {ast.unparse(n)[:60]}")
+                out.update(m)
+            else:
+                out[kw.arg] = self.eval(kw.value)
+        return out
+
+    def dataclass_fields(self, cls) -> List[str]:
+        if not any(c.is_dataclass for c in self.repo.mro(cls)):
+            return []
+        fields: List[str] = []
+        for c in reversed(self.repo.mro(cls)):
+            for fname, ann in c.class_annotations.items():
+                if "ClassVar" not in ast.unparse(ann) and fname not in fields:
+                    fields.append(fname)
+        return fields
 
     def _copy_obj(self, obj: "Obj", deep: bool, memo: Dict[int, Any]):
         if id(obj) in memo:
@@ -916,7 +949,7 @@ class Evaluator:
 
             obj = self.repo.resolve_name(self.mod_stack[-1], n.func.id)
             if isinstance(obj, FuncInfo):
-                kwargs = {kw.arg: self.eval(kw.value) for kw in n.keywords if kw.arg}
+                kwargs = self._kwargs(n)
                 return self.call_funcinfo(obj, self._elts(n.args), kwargs)
         if isinstance(n.func, (ast.Name, ast.Attribute, ast.Subscript)) and self.repo is not None and name not in ("isinstance",):
             target = None
@@ -935,7 +968,7 @@ class Evaluator:
             if isinstance(target, Ref):
                 from .model import ClassInfo, FuncInfo
 
-                kwargs = {kw.arg: self.eval(kw.value) for kw in n.keywords if kw.arg}
+                kwargs = self._kwargs(n)
                 if isinstance(target.target, ClassInfo):
                     return self.instantiate(target.target, self._elts(n.args), kwargs)
                 if isinstance(target.target, FuncInfo) and isinstance(n.func, ast.Name):
@@ -1027,13 +1060,13 @@ class Evaluator:
             args = self._elts(n.args)
             meth = n.func.attr
             if isinstance(recv, Obj) and recv._cls is not None and self.repo is not None and not recv.has(meth):
-                kwargs = {kw.arg: self.eval(kw.value) for kw in n.keywords if kw.arg}
+                kwargs = self._kwargs(n)
                 return self.call_method(recv, meth, args, kwargs)
             if isinstance(recv, ExtRef):
                 return self._external_call(f"{recv.name}.{meth}", args, n)
             if isinstance(recv, SuperRef):
                 m = self._super_method(recv, meth)
-                kwargs = {kw.arg: self.eval(kw.value) for kw in n.keywords if kw.arg}
+                kwargs = self._kwargs(n)
                 return self.call_funcinfo(m, [recv.obj, *args], kwargs)
             if isinstance(recv, (ModRef, Ref)):
                 tgt = self._e_Attribute(n.func)
@@ -1041,7 +1074,7 @@ class Evaluator:
                     from .model import FuncInfo
 
                     if isinstance(tgt.target, FuncInfo):
-                        kwargs = {kw.arg: self.eval(kw.value) for kw in n.keywords if kw.arg}
+                        kwargs = self._kwargs(n)
                         return self.call_funcinfo(tgt.target, args, kwargs)
                 raise NotEvaluable(f"call not evaluable: {ast.unparse(n)[:80]}")
             if isinstance(recv, list):
@@ -1117,6 +1150,17 @@ class Evaluator:
                 if meth == "discard":
                     recv.discard(_freeze(args[0]))
                     return None
+                if meth == "remove":
+                    try:
+                        recv.remove(_freeze(args[0]))
+                    except KeyError as err:
+                        raise Raised("KeyError") from err
+                    return None
+                if meth == "clear":
+                    recv.clear()
+                    return None
+                if meth == "copy":
+                    return set(recv)
                 if meth == "update":
                     recv.update(_freeze(x) for x in self._iterate(args[0], n))
                     return None
